@@ -169,6 +169,12 @@ def _subview(m: AllocMachine, op, vals, core):
     m.probe("subview")
 
 
+@handler(memref.ExtractAlignedPointerAsIndexOp)
+def _raw_pointer(m, op, vals, core):
+    vals[op.aligned_pointer] = m.get(vals, op.source)  # the address of the buffer: whoever gets it touches the buffer
+    m.probe("raw-pointer")
+
+
 @handler(memref.CastOp)
 def _memref_cast(m, op, vals, core):
     vals[op.dest] = m.get(vals, op.source)  # same memory, other static type (e.g. unranked)
